@@ -25,7 +25,7 @@ Fixpoint trace_sub_from (sel : list nat) (cfg : config) (t0 : Z) (m : mon) (pre 
   | [] => true
   | (e, o, d) :: tl =>
     forallb (fun i => String.eqb (nth i (p_components cfg t0 m pre e o d) ""%string) "") sel
-    && trace_sub_from sel cfg t0 (pm_final cfg d e o m) d tl
+    && trace_sub_from sel cfg t0 (pm_final cfg pre d e o m) d tl
   end.
 Definition trace_sub (sel : list nat) (cfg : config) (t0 : Z) tr : bool := trace_sub_from sel cfg t0 mon0 empty_dump tr.
 
@@ -124,7 +124,7 @@ Proof.
   rewrite Eapp in Hsel, Hfr, Hbg.
   pose proof (proj1 (proj1 (selectors_in_range_app _ _ _) Hsel)) as Hsel1. pose proof (fresh_calls_app _ _ _ Hfr) as Hfr1.
   assert (Hbg1 : bg_scripts_ok (pfx ++ [eh])) by (intros e He; apply Hbg; apply in_or_app; left; exact He).
-  destruct (IH (pfx ++ [eh]) (pm_final cfg (observe (fst (step s eh))) (fst eh) (snd (step s eh)) m) (observe (fst (step s eh))) Hsel Hfr Hbg Hnp') as [Hp|Hrest].
+  destruct (IH (pfx ++ [eh]) (pm_final cfg pre (observe (fst (step s eh))) (fst eh) (snd (step s eh)) m) (observe (fst (step s eh))) Hsel Hfr Hbg Hnp') as [Hp|Hrest].
   { left. rewrite Es' in Hp. cbn [run]. destruct (step s eh) as [s1 o]. cbn [fst] in Hp. destruct (run s1 evs) as [s2 os]. cbn [snd] in *.
     destruct Hp as [o' [what [Ho Hw]]]. exists o', what. split; [right; exact Ho|exact Hw]. }
   right. rewrite Es' in Hrest. rewrite Hrest, andb_true_r. rewrite <- Es'.
@@ -167,7 +167,7 @@ Lemma trace_sub_generic : forall cfg t0 sel (Inv : list (event * list (nat * wre
   (forall pfx eh m pre, good cfg t0 (pfx ++ [eh]) -> ~ panicked (snd (run (init cfg t0) (pfx ++ [eh]))) -> Inv pfx m pre ->
      let s := fst (run (init cfg t0) pfx) in let o := snd (step s eh) in let d := observe (fst (step s eh)) in
      forallb (fun i => String.eqb (nth i (p_components cfg t0 m pre (fst eh) o d) ""%string) "") sel = true /\
-     Inv (pfx ++ [eh]) (pm_final cfg d (fst eh) o m) d) ->
+     Inv (pfx ++ [eh]) (pm_final cfg pre d (fst eh) o m) d) ->
   forall evs pfx m pre, good cfg t0 (pfx ++ evs) -> ~ panicked (snd (run (init cfg t0) pfx)) -> Inv pfx m pre ->
   panicked (snd (run (fst (run (init cfg t0) pfx)) evs)) \/
   trace_sub_from sel cfg t0 m pre (model_trace_from (fst (run (init cfg t0) pfx)) evs) = true.
